@@ -23,6 +23,13 @@ func budget() time.Duration {
 	return 1500 * time.Millisecond
 }
 
+func describe(info hackpadfs.FileInfo) string {
+	if info == nil {
+		return "<nil>"
+	}
+	return fmt.Sprintf("%v size %d", info.Mode(), info.Size())
+}
+
 func TestParallel(t *testing.T) {
 	fs, err := mem.NewFS()
 	if err != nil {
@@ -103,7 +110,24 @@ func TestParallel(t *testing.T) {
 			d := fmt.Sprintf("g%d", g)
 			p := fmt.Sprintf("%s/f%d", d, round%5)
 			_ = hackpadfs.WriteFullFile(fs, p, []byte{byte(round)}, 0o600)
-			_, _ = hackpadfs.Stat(fs, p)
+			// (a look-up of three names in one transaction, then results about paths only this goroutine touches:
+			// "unrelated paths behave as if the operations ran sequentially")
+			deep := d + "/deep/er"
+			if err := hackpadfs.MkdirAll(fs, deep, 0o755); err != nil {
+				report(fmt.Sprintf("%s: MkdirAll(%s) in a private directory: %v", d, deep, err))
+			}
+			if info, err := hackpadfs.Stat(fs, p); err != nil || info.IsDir() || info.Size() != 1 {
+				report(fmt.Sprintf("%s: Stat(%s) of the file this goroutine has just written (1 byte): %v, %v", d, p, describe(info), err))
+			}
+			if info, err := hackpadfs.Stat(fs, deep); err != nil || !info.IsDir() {
+				report(fmt.Sprintf("%s: Stat(%s) of the directory this goroutine has just made: %v, %v", d, deep, describe(info), err))
+			}
+			if err := hackpadfs.Remove(fs, deep); err != nil {
+				report(fmt.Sprintf("%s: Remove(%s): %v", d, deep, err))
+			}
+			if err := hackpadfs.Remove(fs, d+"/deep"); err != nil {
+				report(fmt.Sprintf("%s: Remove(%s/deep): %v", d, d, err))
+			}
 			_ = hackpadfs.Rename(fs, p, p+"x")
 			_, _ = hackpadfs.ReadDir(fs, d)
 			_ = hackpadfs.Chmod(fs, p+"x", 0o640)
